@@ -86,6 +86,10 @@ def run_case(case, ctx):
     try:
         rng = np.random.default_rng([case["dseed"], 88])
         y = zoo.make_series(rng, case["n"], positive=True, off=case["off"], kind=case["series"], integer=case["dseed"] % 5 == 0)
+        # exogenous data go along for the base forecasters that accept them (they ignore the values; the folds must not change)
+        X = pd.DataFrame({"x0": np.arange(len(y)) * 0.5, "x1": rng.normal(0, 1, len(y))}, index=y.index) if (case["base"] in (0, 1, 2) and case["dseed"] % 3 == 0) else None
+        if X is not None:
+            ctx.tag("with-exogenous-data")
         cv = zoo.build_cv(case["cv"])
         scoring = zoo.build_metric(case["scoring"])
         metric = scoring if scoring is not None else M.MeanAbsolutePercentageError()
@@ -107,7 +111,7 @@ def run_case(case, ctx):
         procs = case["n_jobs"] == 2 and case["dseed"] % 2 == 0 and spec[0] != "spy-naive"
         import contextlib
         with (contextlib.nullcontext() if procs else parallel_backend("threading")):
-            ok, _ = ctx.call("tune:fit-exception", tuner.fit, y.copy(), fh=fh)
+            ok, _ = ctx.call("tune:fit-exception", tuner.fit, y.copy(), None if X is None else X.copy(), fh=fh)
         ctx.tag("backend:" + ("processes" if procs else "threads" if case["n_jobs"] == 2 else "sequential"))
         if not ok:
             return
@@ -126,7 +130,7 @@ def run_case(case, ctx):
                 ctx.check("rows", res["params"].iloc[i] == params, "tune:params-order", "row %d holds another parameter set" % i,
                           got=res["params"].iloc[i], expected=params)
                 cand = clone(_build(spec, lid2)).set_params(**params)
-                ev = evaluate(cand, zoo.build_cv(case["cv"]), y.copy(), strategy=strategy, scoring=metric)
+                ev = evaluate(cand, zoo.build_cv(case["cv"]), y.copy(), None if X is None else X.copy(), strategy=strategy, scoring=metric)
                 ref = float(ev["test_" + metric.name].mean())
                 ref_scores.append(ref)
                 ctx.check("rows", _eq(res[col].iloc[i], ref), "tune:row-differs-from-independent-evaluate",
@@ -142,10 +146,10 @@ def run_case(case, ctx):
                         fha = ForecastingHorizon(y_te.index, is_relative=False)
                         if k == 0 or strategy == "refit":
                             g = clone(_build(spec, lid2)).set_params(**params)
-                            g.fit(y_tr.copy(), fh=fha)
+                            g.fit(y_tr.copy(), None if X is None else X.iloc[tr].copy(), fh=fha)
                         else:
-                            g.update(y_tr.copy())
-                        fold_scores.append(float(metric(y_te, g.predict(fha))))
+                            g.update(y_tr.copy(), None if X is None else X.iloc[tr].copy())
+                        fold_scores.append(float(metric(y_te, g.predict(fha, None if X is None else X.iloc[tr[-1] + 1: te[-1] + 1].copy()))))
                 except Exception as e:  # noqa
                     ctx.tag("honest-fold-loop-failed:" + type(e).__name__)
                     fold_scores = None
@@ -191,7 +195,7 @@ def run_case(case, ctx):
         # ---- refit / delegation -------------------------------------------------------------------------
         if case["refit"]:
             direct = _build(spec, spies.new_log()).set_params(**tuner.best_params_)
-            direct.fit(y.copy(), fh=fh)
+            direct.fit(y.copy(), None if X is None else X.copy(), fh=fh)
             ok1, p1 = ctx.call("tune:predict-exception", tuner.predict, fh)
             p2 = direct.predict(fh)
             if ok1:
